@@ -100,7 +100,7 @@ def main():
         "setup_cmd": "./setup.sh",
         "hooks": {
             "guard": "verif",
-            "enable": "go1.26.8 test -c -tags verif (harness module /verif/sim has `replace github.com/buildbuildio/pebbles => /repo`, so /repo's working tree is compiled with the tag on)",
+            "enable": "go1.26.8 test -c -tags verif (harness module /verif/sim has `replace github.com/buildbuildio/pebbles => /repo`, so /repo's working tree is compiled with the tag on); a second binary is built the same way against a scratch copy of the working tree under /verif/.build/auto in which package sim/autoyield has inserted simhook.Auto(site) before every statement and swapped sync.Mutex/RWMutex for simhook.Mutex/RWMutex",
             "baseline_off_cmd": "cd /repo && go test -vet=off -count=1 ./...",
             "source_commits": HOOK_COMMITS,
             "add_only": True,
@@ -109,11 +109,11 @@ def main():
             "name": "simcheck",
             "path": "/verif/sim (Go module: tape, sched, simnet, gql, scen, run_test.go) + /verif/sim/cmd/simcheck (parent driver)",
             "serves_properties": sorted(CLAIMED),
-            "kind_free_text": "deterministic simulation with fault injection: real gateway code inside a testing/synctest bubble, every scheduling / network / fault decision drawn from one seeded choice tape; parent process captures crashes, shrinks tapes, replays",
+            "kind_free_text": "deterministic simulation with fault injection: real gateway code inside a testing/synctest bubble, every scheduling / network / fault decision drawn from one seeded choice tape; parent process captures crashes, shrinks tapes, replays. Each check runs two phases: the plain build (hand-placed yields) and a machine-instrumented build (an interleaving point before every statement, simulator-visible mutexes, seeded preemption)",
         }],
         "checks": checks,
         "not_applicable": na,
-        "notes": "All commands run with cwd=/verif. VERIF_SEED selects the seed block, VERIF_TIER or -tier the tier. Known findings: /verif/known_findings.json. Replay: bin/simcheck -replay <file>. Determinism self-test: bin/simcheck -p <id> -determinism.",
+        "notes": "All commands run with cwd=/verif. VERIF_SEED selects the seed block, VERIF_TIER or -tier the tier. Known findings: /verif/known_findings.json. Replay: bin/simcheck -replay <file>. Determinism self-test: bin/simcheck -p <id> -determinism. Seeded changes: /verif/seeded/<id>/ (regress.sh re-evaluates them).",
     }
     json.dump(m, open("MANIFEST.json", "w"), indent=1)
     print("wrote MANIFEST.json:", len(checks), "checks,", len(na), "not claimed")
